@@ -108,6 +108,23 @@ def evaluate(ctx, cases):
                 if got != ref[i]:
                     ctx.violation(f"the result must be a function of (query, document, filter context): {which}, repeated use", {**inp, "doc_index": i}, got if isinstance(got, dict) else got[:6], ref[i] if isinstance(ref[i], dict) else ref[i][:6])
                     break
+        # the same compiled object on the same document objects under a sequence of different filter contexts
+        if "_" in text:
+            seq = list(qpool.CONTEXTS) + list(reversed(qpool.CONTEXTS)) + [{"v": 1, "flag": False, "list": [5], "x": {"y": 2}}, {"v": 5, "flag": True, "list": [1, 2, 5]}]
+            for which, q in (("caching on", qon), ("caching off", qoff)):
+                bad = False
+                for i in range(len(docs)):
+                    for e in seq:
+                        want = _n(_run(env_off.compile(text), copy.deepcopy(docs[i]), e))
+                        got = _n(_run(q, docs[i], e))
+                        ctx.count("context-sequence")
+                        if got != want:
+                            ctx.violation(f"the result must be a function of (query, document, filter context): {which}, same document object, another filter context",
+                                          {**inp, "doc_index": i, "filter_context_now": e}, got if isinstance(got, dict) else got[:6], want if isinstance(want, dict) else want[:6])
+                            bad = True
+                            break
+                    if bad:
+                        break
         # interleavings of two lazy iterators from the same compiled object (caching on)
         if len(docs) >= 2 and not isinstance(ref[0], dict) and not isinstance(ref[1], dict):
             scheds = set(itertools.permutations("AAABBB"))
